@@ -44,6 +44,18 @@ def main():
     ok_make, make_log = lib.coq_make()
     proof = lib.coq_properties(pid) if ok_make else dict(ok=False, theorems=[], assumptions={}, log=make_log, wall=0)
     audit = lib.audit_sources()
+    # source-regenerated decision tables (harness/tables.py): a property module names the table checks its theorems rest on
+    table_log = ""
+    if ok_make and getattr(mod, "TABLES", None):
+        import tables
+        for tname in mod.TABLES:
+            tok, tlog = getattr(tables, tname)()
+            if not tok:
+                proof["ok"] = False
+                table_log += f"[{tname}] {tlog}\n"
+        proof["tables"] = list(mod.TABLES)
+        if table_log:
+            proof["log"] = (proof.get("log") or "") + "\n" + table_log
     proof_ok = ok_make and proof["ok"] and not audit
     axioms = sorted({a for v in proof.get("assumptions", {}).values() for a in v})
 
@@ -126,7 +138,7 @@ def main():
         if r and r.get("nontrivial"):
             keys[json.dumps(r.get("key", c), sort_keys=True, default=str)] = 1
     samples = [{"case": c, "obs": (r or {}).get("obs")} for c, r in list(zip(cases, results))[:3]]
-    n_thm = len(proof.get("theorems", []))
+    n_thm = len(proof.get("theorems", [])) + len(proof.get("tables", []))
     coverage = {
         "obligations": n_thm, "discharged": n_thm if proof_ok else 0,
         "checker_cmd": f"cd coq && make && coqc -Q theories PD theories/Properties_{pid}.v",
@@ -134,8 +146,9 @@ def main():
             "Coq 8.16.1 kernel + vm_compute (no native_compute)",
             "axioms reported by Print Assumptions for this property's theorems: " + (", ".join(axioms) if axioms else "none (Closed under the global context)"),
             "hand-written model " + mod.IMPORTS + " tied to /repo by the correspondence run below (model evaluated in Coq by vm_compute on generated case files)",
-        ] + list(getattr(mod, "TRUSTED", [])),
-        "theorems": proof.get("theorems", []),
+        ] + (["decision table(s) re-translated from the source on this run by harness/tables.py (fail-closed ast walker) and proved equal to the model's: " + ", ".join(proof["tables"])] if proof.get("tables") else [])
+          + list(getattr(mod, "TRUSTED", [])),
+        "theorems": proof.get("theorems", []) + [f"tables.{t}" for t in proof.get("tables", [])],
         "evaluations": len(cases), "distinct_nontrivial": len(keys), "rule": getattr(mod, "RULE", ""),
         "samples": samples,
         "traces_validated_against_impl": len(idx) - len(corr_bad),
